@@ -185,7 +185,7 @@ class assert_in(RuntimeAssertionFeedback):
 
     def condition(self, needle, haystack):
         """ Tests if the needle is not in the haystack """
-        return needle.value not in haystack.value
+        return unwrap_value(needle.value) not in haystack.value
 
 
 class assert_not_in(RuntimeAssertionFeedback):
@@ -201,7 +201,7 @@ class assert_not_in(RuntimeAssertionFeedback):
 
     def condition(self, needle, haystack):
         """ Tests if the needle is in the haystack """
-        return needle.value in haystack.value
+        return unwrap_value(needle.value) in haystack.value
 
 
 class assert_contains_subset(RuntimeAssertionFeedback):
@@ -483,7 +483,7 @@ class assert_is_instance(RuntimeAssertionFeedback):
 
     def condition(self, obj, cls):
         """ Tests if the left and right are equal """
-        value = cls.value
+        value = unwrap_value(cls.value)
         if value == int or value == float:
             value = (int, float)
         return not isinstance(obj.value, value)
@@ -502,7 +502,7 @@ class assert_not_is_instance(RuntimeAssertionFeedback):
 
     def condition(self, obj, cls):
         """ Tests if the left and right are equal """
-        value = cls.value
+        value = unwrap_value(cls.value)
         if value == int or value == float:
             value = (int, float)
         return isinstance(obj.value, value)
@@ -584,7 +584,7 @@ class assert_regex(RuntimeAssertionFeedback):
 
     def condition(self, regex, text):
         """ Tests if the regex matches the text """
-        return re.search(regex.value, str(text.value)) is None
+        return re.search(unwrap_value(regex.value), str(text.value)) is None
 
 
 class assert_not_regex(RuntimeAssertionFeedback):
@@ -600,7 +600,7 @@ class assert_not_regex(RuntimeAssertionFeedback):
 
     def condition(self, regex, text):
         """ Tests if the regex does not match the text """
-        return re.search(regex.value, str(text.value)) is not None
+        return re.search(unwrap_value(regex.value), str(text.value)) is not None
 
 
 class assert_almost_equal(assert_equal):
